@@ -17,14 +17,19 @@ JudgeCheck(c) ==
 \* ---- kind "balance"
 Valued(c) == c.V # ""
 ObsRows(c, secs) == {n \in 1..Len(c.obs.rows) : c.obs.rows[n].sec \in secs}
+\* In a valued report commodities are aggregated per row, except for the accounts matched by
+\* --show-commodities; an aggregated row carries the valuation commodity's name (or nothing).
+Shown(c, a) == a \in SetOf(c.flags.show)
+Aggregated(c, r) == Valued(c) /\ (r.sec \notin {"AL", "EIE"} \/ ~Shown(c, r.a))
 ExpectedRowCell(c, rep, r, k) ==
   CASE r.sec \in {"AL", "EIE"} ->
-         IF r.c = "" THEN (IF Valued(c) THEN ValuedCell(c, rep, r.a, k) ELSE 0) ELSE Cell(c, rep, r.a, r.c, k)
-    [] r.sec = "TotalAL"  -> IF r.c = "" THEN SumOver(SetToSeq(Comms(c)), LAMBDA cc : TotalRaw(c, rep, TRUE, cc, k))
+         IF Aggregated(c, r) THEN ValuedCell(c, rep, r.a, k)
+         ELSE IF r.c = "" THEN 0 ELSE Cell(c, rep, r.a, r.c, k)
+    [] r.sec = "TotalAL"  -> IF r.c = "" \/ Aggregated(c, r) THEN SumOver(SetToSeq(Comms(c)), LAMBDA cc : TotalRaw(c, rep, TRUE, cc, k))
                              ELSE TotalRaw(c, rep, TRUE, r.c, k)
-    [] r.sec = "TotalEIE" -> IF r.c = "" THEN -SumOver(SetToSeq(Comms(c)), LAMBDA cc : TotalRaw(c, rep, FALSE, cc, k))
+    [] r.sec = "TotalEIE" -> IF r.c = "" \/ Aggregated(c, r) THEN -SumOver(SetToSeq(Comms(c)), LAMBDA cc : TotalRaw(c, rep, FALSE, cc, k))
                              ELSE -TotalRaw(c, rep, FALSE, r.c, k)
-    [] r.sec = "Delta"    -> IF r.c = "" THEN SumOver(SetToSeq(Comms(c)), LAMBDA cc : DeltaCell(c, rep, cc, k))
+    [] r.sec = "Delta"    -> IF r.c = "" \/ Aggregated(c, r) THEN SumOver(SetToSeq(Comms(c)), LAMBDA cc : DeltaCell(c, rep, cc, k))
                              ELSE DeltaCell(c, rep, r.c, k)
 \* unvalued reports multiply by the quantity scale only; valued ones are at scale S
 Complete(c) == c.flags.acctAll /\ c.flags.commAll /\ \A n \in 1..Len(c.flags.map) : c.flags.map[n].level # 0
@@ -49,7 +54,7 @@ WhyBalance(c) ==
      ELSE IF ~(\A a \in Accts(c) : \A cc \in Comms(c) : \A k \in 1..np :
                  Cell(c, fin.rep, a, cc, k) # 0 =>
                     \E n \in ObsRows(c, {"AL", "EIE"}) :
-                       c.obs.rows[n].a = a /\ (c.obs.rows[n].c = cc \/ (Valued(c) /\ c.obs.rows[n].c = ""))) THEN "missing-row"
+                       c.obs.rows[n].a = a /\ (c.obs.rows[n].c = cc \/ Aggregated(c, c.obs.rows[n]))) THEN "missing-row"
      \* C01: complete reports net to zero, in the model and in the observation
      ELSE IF Complete(c) /\ ~(\A cc \in Comms(c) : \A k \in 1..np : DeltaCell(c, fin.rep, cc, k) = 0) THEN "model-delta-nonzero"
      ELSE IF Complete(c) /\ ~(\A n \in ObsRows(c, {"Delta"}) : \A k \in 1..np : c.obs.rows[n].x[k] = 0) THEN "delta-nonzero"
